@@ -14,8 +14,17 @@ package env
 
 // Lookup through the scope chain as an uninterpreted function of the ghost "scope
 // world" envW: every call that may bind or remove a name havocs envW; lookups do not.
-//@ spec abstract lookupV(w int, e *Env, k string) types.MalType
-//@ spec abstract lookupOK(w int, e *Env, k string) bool
+//@ spec abstract lookupV(w World, e *Env, k string) types.MalType
+//@ spec abstract lookupOK(w World, e *Env, k string) bool
+// the world after binding k to v in scope e / after creating a child scope of outer /
+// after binding a parameter list in a new child scope (uninterpreted: they name what the
+// scope operations do to the abstract world; the evaluator's specification uses the same names)
+//@ spec abstract defW(w World, e *Env, k string, v types.MalType) World
+//@ spec abstract scopeR(w World, outer *Env) *Env
+//@ spec abstract scopeW(w World, outer *Env) World
+//@ spec abstract bindR(w World, outer types.EnvType, binds types.MalType, exprs types.MalType) types.EnvType
+//@ spec abstract bindE(w World, outer types.EnvType, binds types.MalType, exprs types.MalType) error
+//@ spec abstract bindW(w World, outer types.EnvType, binds types.MalType, exprs types.MalType) World
 
 //@ func _newEnv() (r)
 //@   panics never
@@ -31,11 +40,15 @@ package env
 //@   ensures validEnvVal(r)
 
 //@ func NewSubordinateEnv(outer) (r)
+//@   changes world
+//@   ensures r.(*Env) == scopeR(old(world()), outer.(*Env)) && world() == scopeW(old(world()), outer.(*Env)) @assume
 //@   requires validEnvVal(outer)
 //@   panics never
 //@   ensures validEnvVal(r) && fresh(r.(*Env)) && r.(*Env).outer == outer.(*Env)
 
 //@ func NewSubordinateEnvWithBinds(outer, binds, exprs) (r, err)
+//@   changes world
+//@   ensures r == bindR(old(world()), outer, binds, exprs) && err == bindE(old(world()), outer, binds, exprs) && world() == bindW(old(world()), outer, binds, exprs) @assume
 //@   requires validEnvVal(outer)
 //@   panics never
 //@   ensures err != nil || (validEnvVal(r) && fresh(r.(*Env)) && r.(*Env).outer == outer.(*Env))
@@ -46,6 +59,7 @@ package env
 //@   ensures err != nil || (validEnvVal(r) && fresh(r.(*Env)) && r.(*Env).outer == outer)
 
 //@ func (*Env).Find(e, key) (r)
+//@   ensures (r != nil) == lookupOK(world(), e, key.Val) @assume
 //@   requires unlocked(e.mu) @assume
 //@   locks envDepth(e)
 //@   requires validEnv(e)
@@ -67,7 +81,7 @@ package env
 //@   requires validEnv(e)
 //@   panics never
 //@   assigns nothing
-//@   ensures v == lookupV(ghost(envW), e, key.Val) && (err == nil) == lookupOK(ghost(envW), e, key.Val) @assume
+//@   ensures v == lookupV(world(), e, key.Val) && (err == nil) == lookupOK(world(), e, key.Val) @assume
 
 //@ func (*Env).GetNT(e, key) (v, err)
 //@   requires held(e.mu)
@@ -77,6 +91,8 @@ package env
 //@   assigns nothing
 
 //@ func (*Env).Set(e, key, value) (r)
+//@   changes world
+//@   ensures world() == defW(old(world()), e, key.Val, value) @assume
 //@   requires unlocked(e.mu) @assume
 //@   locks envDepth(e)
 //@   requires validEnv(e)
